@@ -56,21 +56,48 @@ def expand(printed, names, subclauses=None):
     return full
 
 
+def replay(ctx, spec, subclauses=None):
+    """--replay PATH: re-decide the recorded case (the exact transported observation of the failing evaluation, with its
+    inputs in payload.meta) with TLC; the violation is reported again under the same key if TLC still rejects it."""
+    import json
+    from . import tlc
+    rec = json.load(open(ctx.replay))
+    case = rec["payload"].get("case") if isinstance(rec.get("payload"), dict) else None
+    if case is None:
+        raise tlc.TLCError("replay file %s holds inputs only (no transported case); rerun the tier with seed %s" % (
+            ctx.replay, rec.get("seed")))
+    fails, infos, results = tlc.run_cases(spec, [case], shards=1)
+    for r in results:
+        ctx.add_model(r)
+    ctx.traces += 1
+    ctx.case(rec["key"])
+    if 0 in fails:
+        ctx.violation(rec["key"], "replayed: TLC rejects %s" % sorted(set(fails[0])), rec["payload"])
+
+
 def world_of(name):
     return EXTRA_WORLDS[name] if name in EXTRA_WORLDS else worlds.CATALOGUE[name]
 
 
-def interstitial(name, chem, shell, rng, orient=True):
-    """Like calc.interstitial, for catalogue and extra worlds."""
+def interstitial(name, chem, shell, rng, orient=True, connect=True):
+    """Like calc.interstitial, for catalogue and extra worlds.  With connect, the jump shell is raised (at most 4
+    times) until the network connects all sites of the cell: a disconnected network has no unique equilibrium (C12) and
+    makes the projected rate matrix of a centrosymmetric crystal singular (the calculator then raises, which is not the
+    subject of C11)."""
     from onsager import OnsagerCalc
     w = world_of(name)
     s = calc.Setup()
-    s.name, s.chem, s.shell = name, chem, shell
+    s.name, s.chem = name, chem
     s.crys, s.unit = worlds.realise(w, rng if orient else None, orient=orient)
     s.w = worlds.observe(s.crys, s.unit, Dhint=w["D"])
-    s.cutoff = rel.cutoff_for(s.w, chem, shell, s.unit)
     s.sitelist = s.crys.sitelist(chem)
-    s.jumpnetwork = s.crys.jumpnetwork(chem, s.cutoff)
+    nsites = len(s.crys.basis[chem])
+    for sh in range(shell, shell + 5):
+        s.shell = sh
+        s.cutoff = rel.cutoff_for(s.w, chem, sh, s.unit)
+        s.jumpnetwork = s.crys.jumpnetwork(chem, s.cutoff)
+        if not connect or components(nsites, [ij for cls in s.jumpnetwork for ij, dx in cls]) == 1:
+            break
     s.calc = OnsagerCalc.Interstitial(s.crys, chem, s.sitelist, s.jumpnetwork)
     s.Nsite, s.Njump = len(s.sitelist), len(s.jumpnetwork)
     return s
